@@ -31,16 +31,22 @@ Definition under_b (root f : bytes) : bool := list_prefix_b (walk root) (walk f)
 Definition absolute (p : bytes) : Prop := exists r, p = 47 :: r.
 
 (* ---- (b) sealed URLs ---- *)
-(* a path net/url does not need to percent-encode (and that is not a relative path whose first
-   segment contains ':', nor one that begins with exactly two slashes, which url.Parse reads as an authority) — for these the sealed form carries the path verbatim *)
+(* paths the sealed form carries faithfully: byte strings, except a relative path whose first segment contains ':'
+   (URL.String prepends "./", which comes back as part of the path) and a path that begins with exactly two slashes
+   (url.Parse reads "//x" as an authority) — for these two classes Unseal still rejects what Seal issued *)
 Definition dslash_start (p : bytes) : bool := is_prefix [47; 47] p && negb (is_prefix [47; 47; 47] p).
 
-Definition plain_path (p : bytes) : Prop :=
-  forallb plain_byte p = true /\ (is_prefix [47] p = true \/ first_seg_colon p = false)
-  /\ dslash_start p = false.
+Definition bytes_ok (p : bytes) : Prop := Forall (fun c => c < 256) p.
 
-Definition plain_path_b (p : bytes) : bool :=
-  forallb plain_byte p && (is_prefix [47] p || negb (first_seg_colon p)) && negb (dslash_start p).
+Definition sealable_path (p : bytes) : Prop :=
+  (is_prefix [47] p = true \/ first_seg_colon p = false) /\ dslash_start p = false.
+
+Definition sealable_path_b (p : bytes) : bool :=
+  (is_prefix [47] p || negb (first_seg_colon p)) && negb (dslash_start p).
+
+(* a path net/url does not need to percent-encode (kept for the regression Examples) *)
+Definition plain_path (p : bytes) : Prop :=
+  forallb plain_byte p = true /\ sealable_path p.
 
 (* a RawQuery as url.Values.Encode produces: no fragment delimiter, no control bytes *)
 Definition good_query (q : bytes) : Prop := existsb (fun c => (c =? 35) || is_ctl c) q = false.
